@@ -25,7 +25,14 @@ type Run struct {
 	Obs []string
 	// Viol are violations detected by the harness oracle in this execution.
 	Viol []Viol
+	// Held: locks still held (per the lock model) when the run ended.
+	Held []string
 }
+
+// Wedged reports whether touching the machine from cleanup could block for
+// real: a deadlock was detected or a lock was leaked. Cleanup must then leave
+// the machine alone (the bubble's leftover goroutines are abandoned).
+func (r *Run) Wedged() bool { return r.S.Deadlock || len(r.Held) > 0 || len(r.S.Panics) > 0 }
 
 type Viol struct{ Sig, Detail string }
 
@@ -99,7 +106,9 @@ func Once(t *testing.T, prefix []int, body func(r *Run), cleanup func(r *Run)) *
 				msg := fmt.Sprint(p)
 				if strings.Contains(msg, "deadlock") {
 					r.Observe("bubble-deadlock")
-					r.Violate("bubble-deadlock", "goroutines remained blocked after cleanup: %s", msg)
+					if len(r.Viol) == 0 {
+						r.Violate("bubble-deadlock", "goroutines remained blocked after cleanup: %s", msg)
+					}
 				} else {
 					ex.Err = "panic in execution: " + msg
 				}
@@ -107,6 +116,10 @@ func Once(t *testing.T, prefix []int, body func(r *Run), cleanup func(r *Run)) *
 		}()
 		synctest.Test(t, func(t *testing.T) {
 			r.S = vsched.Run(prefix, func() { body(r) })
+			r.Held = r.S.Held()
+			for _, p := range r.S.Panics {
+				r.Violate("panic", "panic escaped a thread: %s", p)
+			}
 			if cleanup != nil {
 				cleanup(r)
 			}
